@@ -66,6 +66,7 @@ func handleRunVerdict(rt *rapid.T, s *vh.Session, c runCase, v runVerdict) {
 		rt.Fatalf("INFRA: %s", v.Msg)
 	case v.Class == "violation":
 		account(s, "", v.Out)
+		v.Feature = append(v.Feature, featuresOf(s.ID, c, v)...)
 		if f := s.MatchKnown(v.Feature, v.Msg); f != nil {
 			s.Known(f)
 			return
@@ -89,9 +90,7 @@ func runCaseReplay(t *testing.T, s *vh.Session) {
 		account(s, "", v.Out)
 	case "violation":
 		account(s, "", v.Out)
-		if s.ID == "C04" {
-			v.Feature = c04Features(c, v)
-		}
+		v.Feature = featuresOf(s.ID, c, v)
 		if f := s.MatchKnown(v.Feature, v.Msg); f != nil && !s.Probing() {
 			s.Known(f)
 			return
